@@ -1278,3 +1278,63 @@ func (p *Prog) falseOnlyWhenParamFalse(h *ssa.Function, resIdx int, par *ssa.Par
 	}
 	return seenFalse
 }
+
+// checkEntryStarted (C16/S11): every successful return of a constructor is reached through the go
+// statement that starts the discipline's goroutine. The goroutine's deferred Complete() is what a
+// later Stop() / GracefulStop() waits for: a constructor that returns a discipline without having
+// started it ("the context is already cancelled: close the output and return") leaves Stop()
+// blocked for ever.
+func checkEntryStarted(c *Ctx, p *Prog, rule string) {
+	n := 0
+	for _, d := range p.Discs() {
+		for _, e := range d.Gos {
+			if e.Multi || e.Parent != nil || e.Stmt == nil {
+				continue
+			}
+			n++
+			key := fmt.Sprintf("%s:%s#entry-started", p.Name, d.Name)
+			var problems []string
+			// the function holding the go statement, and (for a private builder) its callers among
+			// the constructors: in each, every non-error return is dominated by the go / the call
+			type anchor struct {
+				fn *ssa.Function
+				b  *ssa.BasicBlock
+			}
+			anchors := []anchor{{p.Norm(e.Stmt.Parent()), e.Stmt.Block()}}
+			seen := map[*ssa.Function]bool{anchors[0].fn: true}
+			for i := 0; i < len(anchors); i++ {
+				for _, cs := range p.CallSites(anchors[i].fn) {
+					par := p.Norm(cs.Parent())
+					isCtor := false
+					for _, ct := range d.Ctors {
+						if ct == par {
+							isCtor = true
+						}
+					}
+					if isCtor && !seen[par] {
+						seen[par] = true
+						anchors = append(anchors, anchor{par, cs.Block()})
+					}
+				}
+			}
+			for _, a := range anchors {
+				for _, b := range a.fn.Blocks {
+					ret, ok := b.Instrs[len(b.Instrs)-1].(*ssa.Return)
+					if !ok || b == a.fn.Recover {
+						continue
+					}
+					if len(ret.Results) > 0 && p.provablyError(ret.Results[len(ret.Results)-1], b) {
+						continue
+					}
+					if !a.b.Dominates(b) {
+						problems = append(problems, "the return at "+p.InstrPos(ret)+" of "+a.fn.Name()+" hands out a discipline whose goroutine was not started: Stop() / GracefulStop() wait for its completion for ever")
+					}
+				}
+			}
+			c.R.Check(len(problems) == 0, rule, key, p.InstrPos(e.Stmt), "every successful construction starts the goroutine", strings.Join(dedup(problems), "; "))
+		}
+	}
+	if n == 0 {
+		c.R.Fail(rule, p.Name+"#entry-started", "-", "UNRESOLVED-ANCHOR: no goroutine entry started by a constructor found")
+	}
+}
